@@ -243,10 +243,49 @@ func (c *Corpus) Run(task string, n int, opt map[string]any, nshards int, each f
 				}
 			}
 			if err != nil && firstErr == nil {
-				firstErr = fmt.Errorf("driver shard %d: %v: %s", s, err, clip(errb.String(), 3000))
+				firstErr = &CrashError{Shard: s, Err: err, Stderr: errb.String()}
 			}
 		}(s)
 	}
 	wg.Wait()
 	return firstErr
+}
+
+// CrashError: a driver shard died. Item is the grammar it was exploring (from the VERIF-BEGIN marker); InGenerated
+// reports whether the fatal error's stack passes through a generated package of that item.
+type CrashError struct {
+	Shard  int
+	Err    error
+	Stderr string
+}
+
+func (e *CrashError) Item() string {
+	i := strings.LastIndex(e.Stderr, "VERIF-BEGIN ")
+	if i < 0 {
+		return ""
+	}
+	rest := e.Stderr[i+len("VERIF-BEGIN "):]
+	if j := strings.IndexByte(rest, '\n'); j >= 0 {
+		rest = rest[:j]
+	}
+	return strings.TrimSpace(rest)
+}
+
+func (e *CrashError) InGenerated() bool {
+	id := e.Item()
+	return id != "" && strings.Contains(e.Stderr, "vt/g/"+id+"/o/")
+}
+
+func (e *CrashError) Summary() string {
+	s := e.Stderr
+	if i := strings.Index(s, "fatal error:"); i >= 0 {
+		s = s[i:]
+	} else if i := strings.Index(s, "panic:"); i >= 0 {
+		s = s[i:]
+	}
+	return clip(s, 1500)
+}
+
+func (e *CrashError) Error() string {
+	return fmt.Sprintf("driver shard %d: %v (item %s): %s", e.Shard, e.Err, e.Item(), e.Summary())
 }
